@@ -526,10 +526,11 @@ class ClusterSuite(Suite):
                     must_mismatch = (k == "markCanceled") or (k == "update" and (stale_cfg or o["js_loaded"])) or \
                         (k == "demote" and o["mem_submitter"] == o["handle_host"]) or \
                         (k == "markComplete" and not o["mem_complete"]) or (k == "promote" and o["mem_submitter"] is None)
-                    # an EMPTY config_version.txt is read before the job-status version is compared: the rejection of a
-                    # handle with a stale job-status copy is then the ValueError of that read, not a mismatch
-                    torn_first = o.get("cfg_torn") and k in CFG_WRITERS
-                    if must_mismatch and not torn_first and res != {"error": "versionMismatch"}:
+                    # an EMPTY version file among the files the call reads: the rejection may be the ValueError of that read
+                    # instead of the mismatch of the other pair - which comes first is the read order of the code
+                    # (`_check_versions`: config first), not part of the property; the model correspondence pins it
+                    torn_read = (o.get("cfg_torn") and k in CFG_WRITERS) or (o.get("js_torn") and k in JS_WRITERS)
+                    if must_mismatch and not torn_read and res != {"error": "versionMismatch"}:
                         v.append(Violation("C10", "stale.no_mismatch", f"{where}: stale handle's write returned {res}, not a version mismatch"))
             # ---- C10 (d): under Protocol a holder is never stale when it writes
             if o["protocol_before"] and k in HOLDER_ONLY and op.get("h") in o["holders_before"] and not o["marker_before"]:
